@@ -18,6 +18,10 @@ def gen_rnd_board(seed, length, width, prob_loose_tile, max_reward=6, force_down
     loose_tiles = []
     move_max = 4 if force_down else 3
 
+    # probability of the largest reward: 2**-(max_reward+1); 2.0**(max_reward+1) overflows from
+    # max_reward = 1023 on, and below 2**-1074 a double is 0.0 (log(0) for a zero draw)
+    smallest = 2.0**-min(max_reward+1, 1074)
+
     # construct the board
     random.seed(seed)
     for i in range(length):
@@ -27,8 +31,8 @@ def gen_rnd_board(seed, length, width, prob_loose_tile, max_reward=6, force_down
             # random.random() may return exactly 0.0, which would give max_reward + 1
             rewards[i].append(min(max_reward, math.floor(
                 -math.log(
-                    1.0/2.0**(max_reward+1) +
-                    random.random()*(1.0-1.0/2.0**(max_reward+1)))/math.log(2.0))))
+                    smallest +
+                    random.random()*(1.0-smallest))/math.log(2.0))))
             loose_tiles[i].append(1 if random.random() < prob_loose_tile else 0)
     moves = get_random_moves(length, width, force_down)
     return moves, rewards, loose_tiles
